@@ -172,6 +172,8 @@ pub struct Built {
     pub n_decoys: usize,
     pub n_multiline_comments: usize,
     pub n_joined: usize,
+    pub balanced: bool,
+    pub n_tags: usize,
 }
 
 struct TagRec {
@@ -391,10 +393,16 @@ pub fn balance(events: &[Ev]) -> Vec<Ev> {
     out
 }
 
+/// Balances the events first: the result is a well-nested file with its ground truth.
 pub fn build(lang: &Lang, events: &[Ev], crlf: bool) -> Built {
+    build_raw(lang, &balance(events), crlf)
+}
+
+/// Renders the events as they are; when the tags do not balance, `balanced` is false and `blocks` is empty.
+pub fn build_raw(lang: &Lang, events: &[Ev], crlf: bool) -> Built {
     let fs = forms(lang);
     assert!(!fs.is_empty());
-    let events = balance(events);
+    let events: Vec<Ev> = events.to_vec();
     let mut segs: Vec<Seg> = vec![];
     let mut counter = 0usize;
     let mut prev_was_tag = false;
@@ -602,12 +610,16 @@ pub fn build(lang: &Lang, events: &[Ev], crlf: bool) -> Built {
 
     // ground truth by stack pairing (innermost first)
     let mut stack: Vec<usize> = vec![];
+    let mut balanced = true;
     let mut blocks: Vec<(usize, TruthBlock)> = vec![];
     for (ti, t) in tags.iter().enumerate() {
         if t.start {
             stack.push(ti);
         } else {
-            let si = stack.pop().expect("balanced by construction");
+            let Some(si) = stack.pop() else {
+                balanced = false;
+                break;
+            };
             let s = &tags[si];
             let (line, col) = line_col(&out, s.off);
             let (end_line, end_col) = line_col(&out, s.off + s.len - 1);
@@ -640,9 +652,14 @@ pub fn build(lang: &Lang, events: &[Ev], crlf: bool) -> Built {
             ));
         }
     }
-    assert!(stack.is_empty());
+    if !stack.is_empty() {
+        balanced = false;
+    }
+    if !balanced {
+        blocks.clear();
+    }
     blocks.sort_by_key(|(o, _)| *o);
-    Built { text: out, blocks: blocks.into_iter().map(|(_, b)| b).collect(), n_comments: comments.len(), n_decoys, n_multiline_comments: n_multiline, n_joined }
+    Built { text: out, blocks: blocks.into_iter().map(|(_, b)| b).collect(), n_comments: comments.len(), n_decoys, n_multiline_comments: n_multiline, n_joined, balanced, n_tags: tags.len() }
 }
 
 // ---------------------------------------------------------------------------------------------
